@@ -43,6 +43,10 @@ func main() {
 		for r := *from; r < *from+*runs; r++ {
 			runProposal(w, *seed, r, *heights)
 		}
+	case "shift":
+		for r := *from; r < *from+*runs; r++ {
+			runShift(w, *seed, r, *steps)
+		}
 	case "quorum":
 		runQuorum(w, *full, *lo, *hi)
 	case "open":
